@@ -30,7 +30,8 @@ RULE = ('histories on the real Bus with up to 4 raw scripted clients: connect+He
         'accepts. Non-trivial = >=3 clients with a forged sender, or a destination whose owner changed earlier, or a '
         'broadcast with a near-miss rule; distinct = distinct history JSON. Messages come in the four header spellings of '
         'refcodec.encode_variant (unknown fields, free field order, flag bit 0x4); every third peer leaves INTERFACE out of its Hello '
-        'and every fifth call to the bus driver carries none.')
+        'and every fifth call to the bus driver carries none. Some rules name a sender (unique or well-known): a rule naming the '
+        'sending connection must let the signal through.')
 ASSUMPTIONS = ['how many copies of a broadcast a connection with several matching rules receives is not asserted',
                'sender= in a match rule is not among the constraints the statements enumerate: a rule naming the sending '
                'connection (by unique name, or by a well-known name it owns when the signal is sent) must let the signal through; '
